@@ -22,6 +22,17 @@ CLAIMS = {
              "with the implementation on every run (all 16 axes pairs x vectors flag x one/two grids, API helpers, "
              "every n in [1,4096] x both conventions x float32/64).",
         ref="5 C01"),
+    "C04": dict(
+        technique="Lean 4 theorems (sampling reproduces world-linear images for any grid pair; data and grid halves of every "
+                  "index-only operation use the same offset and size) + exact index correspondence + ramp oracle",
+        text="10 theorems: sampling a world-linear image on any other oriented grid returns the same world-linear function at "
+             "every target sample inside the source field of view (either align_corners of either grid); for crop/pad with "
+             "per-border margins of either sign, center crop/pad, region of interest, narrow and valid convolution the "
+             "tensor-side offset and size equal the grid-side ones for all sizes and arguments; a grid whose origin is the old "
+             "sample `first` places new sample j at old sample j+first. Offsets are compared exactly with the implementation "
+             "(index-coded data, distinct per-image grids); ramps are pushed through every operation and compositions of up to 3 "
+             "with a geometric validity mask. Resizing-family ramps are oracle-only so far (partial).",
+        ref="5 C04"),
     "C05": dict(
         technique="Lean 4 theorems: deepali's sampling coordinate pipeline = ITK physToIdx∘idxToPhys (any grid pair, "
                   "either align_corners), plus correspondence with the implementation and SimpleITK",
